@@ -269,7 +269,11 @@ class TunnelHTTPConnection(ConnectionInterface):
 
         with self._connect_lock:
             if not self._connected:
-                target = b"%b:%d" % (self._remote_origin.host, self._remote_origin.port)
+                host = self._remote_origin.host
+                if b":" in host:
+                    # An IPv6 address literal is bracketed in authority-form.
+                    host = b"[%b]" % host
+                target = b"%b:%d" % (host, self._remote_origin.port)
 
                 connect_url = URL(
                     scheme=self._proxy_origin.scheme,
